@@ -65,8 +65,8 @@ type Config[G algebra.PrimeGroupElement[G, S], S algebra.PrimeFieldElement[S]] s
 	Labels   map[sharing.ID]string // tape label per party, default "a"
 	Hook     drive.Hook            // nil = honest delivery
 	Group    algebra.PrimeGroup[G, S]
-	Access   accessstructures.Monotone      // the zero sharing's access structure; its shareholders run the protocol
-	Contexts map[sharing.ID]*rsess.Context  // optional (cloned); nil = run the real session setup
+	Access   accessstructures.Monotone     // the zero sharing's access structure; its shareholders run the protocol
+	Contexts map[sharing.ID]*rsess.Context // optional (cloned); nil = run the real session setup
 }
 
 // Output of one party.
